@@ -47,7 +47,7 @@ def main(tier):
     # async defs, methods and decorated definitions (the files of this check are not executed): every third module
     for m in mods[::3]:
         if not m.get("dup"):
-            m["ast"], m["lines"] = pygen.layout(m["ast"], deco_rng=rng)
+            m["ast"], m["lines"] = pygen.layout(m["ast"], deco_rng=rng, ret_comps=True)
     d = lib.fresh_dir("c02")
     cc.write_modules(mods, d)
     # default severity: no --min-severity flag
